@@ -4,8 +4,8 @@ from vlib import zlist
 
 PROPS = ["C20/Props.v"]
 META = dict(
-    text="Rocq theorems over an executable line-by-line model of pkg/obifp: every shift count, add/sub/mul/div/cmp of the three widths exact and overflow-exact for all operands (Uint128.Mul: partial, see known finding; Uint128.QuoRem by a 128-bit divisor: correspondence only); the model is tied to the code on every run by evaluating it with vm_compute on the same boundary-biased operand cases the real methods ran on.",
-    note="Trusted: Coq kernel + vm_compute; math/bits primitives modelled by their documented meaning; harness/generators. Proved for all operands: shifts (every count), add/sub, cmp, Mul64/Mul128x64/Mul256 (schoolbook, by induction over limb lists), Div256 (total correctness incl. fuel), QuoRem128x64. Uint128.Mul: partial (known finding: w1*w1 never examined). Bitwise ops and casts proved against Z.land/lor/lxor and value preservation. Uint128.QuoRem with a 128-bit divisor (trial quotient) is modelled and correspondence-checked only.")
+    text="Rocq theorems over an executable line-by-line model of pkg/obifp: every shift count, add/sub/mul/div/cmp of the three widths exact and overflow-exact for all operands (Uint128.Mul: partial, see known finding; Uint128.QuoRem included); the model is tied to the code on every run by evaluating it with vm_compute on the same boundary-biased operand cases the real methods ran on.",
+    note="Trusted: Coq kernel + vm_compute; math/bits primitives modelled by their documented meaning; harness/generators. Proved for all operands: shifts (every count), add/sub, cmp, Mul64/Mul128x64/Mul256 (schoolbook, by induction over limb lists), Div256 (total correctness incl. fuel), QuoRem128x64. Uint128.Mul: partial (known finding: w1*w1 never examined). Bitwise ops and casts proved against Z.land/lor/lxor and value preservation. Uint128.QuoRem (64- and 128-bit divisors, trial quotient within one) total and exact.")
 TRUSTED = ["math/bits primitives (Add64, Sub64, Mul64, Div64, LeadingZeros64) are modelled by their documented exact meaning"]
 M64 = (1 << 64) - 1
 OPNAME = dict(shl="OShl", shr="OShr", add="OAdd", sub="OSub", mul="OMul", cmp="OCmp", lt="OLt", le="OLe", gt="OGt",
